@@ -728,7 +728,14 @@ func cmpOf(v ssa.Value, val bool) (Cmp, bool) {
 	f := normFact(v, val)
 	b, ok := f.V.(*ssa.BinOp)
 	if !ok {
-		return Cmp{}, false
+		// the boolean result of a private single-return helper is the comparison it returns
+		if a := seeRet(f.V); a != f.V {
+			f = normFact(a, f.Val)
+			b, ok = f.V.(*ssa.BinOp)
+		}
+		if !ok {
+			return Cmp{}, false
+		}
 	}
 	switch b.Op {
 	case token.EQL, token.NEQ, token.LSS, token.LEQ, token.GTR, token.GEQ:
